@@ -12,7 +12,7 @@ VARIABLES l, cfg, rep, exp, expState, expExt, expDrop, closed, dirsSeen,
           hist   \* session directory -> expected file bodies, frozen when that session ended (STOP, or a START accepted while active)
 vars == <<l, cfg, rep, exp, expState, expExt, expDrop, closed, dirsSeen, hist>>
 
-NoRep == [active |-> FALSE, paused |-> FALSE, l22 |-> FALSE, l3 |-> FALSE, off |-> FALSE, dir |-> 0]
+NoRep == [active |-> FALSE, paused |-> FALSE, l22 |-> FALSE, l3 |-> FALSE, off |-> FALSE, dir |-> 0, base |-> 0]
 NoCfg == [scen |-> 0, nchan |-> 0]
 EmptyExp(n) == [c \in 0..(n-1) |-> [t \in Types |-> <<>>]]
 NoClosed == [valid |-> FALSE]
@@ -41,6 +41,9 @@ ReqStep(e) ==
         When(~e.ok /\ r # rep, "C06_rejected_noop")
         \cup When(isStart /\ ~(r.active /\ ~r.paused /\ r.dir # 0 /\ RepTypes(r) = SeqToSet(e.types)), "C06_effect_start")
         \cup When(isStart /\ (~e.dirnew \/ r.dir \in dirsSeen), "C06_newdir")
+        \* the run directory lies below the path of the request, or below the remembered base path when the request names none;
+        \* a request with an uncreatable path (wantbase 3) cannot have been accepted
+        \cup When(isStart /\ (LET eff == IF e.wantbase = 0 THEN rep.base ELSE e.wantbase IN r.base # eff \/ e.dirbase # eff \/ eff = 3), "C06_effect_start")
         \cup When(isStop /\ r.active, "C06_effect_stop")
         \cup When(isStop /\ e.open # 0, "C06_stop_closes")
         \cup When(e.ok /\ e.req = "PAUSE" /\ rep.active /\ ~(r.active /\ r.paused), "C06_effect_pause")
